@@ -103,6 +103,16 @@ def oracle_C09(results, metas, st):
                 if isinstance(x, str) and x in ('exception', 'crash') or (isinstance(x, list) and x and x[0] in ('exception', 'crash')):
                     out.append(viol('the run did not terminate normally: %s' % dump(r['cxx'])[:200], [c])); break
             continue
+        if c[2] == 'selects' and isinstance(r['cxx'], list) and all(isinstance(x, int) for x in r['cxx']):
+            import bisect
+            fmt = FMTS[c[1]]
+            ws = [parse_tok(w) for w in c[3][0]]; us = [parse_tok(u) for u in c[3][1]]
+            cum = cumulative(fmt, ws)
+            for u, i in zip(us, r['cxx']):
+                want = bisect.bisect_right(cum, u)
+                if i >= len(ws) or ws[i] == 0 or i != want:
+                    out.append(viol('%d weights: channel %d selected but canonical number %s lies in interval %d of the cumulative weights' % (len(ws), i, fstr(u), want), [c])); break
+            continue
         if c[2] != 'select' or not isinstance(r['cxx'], list) or len(r['cxx']) != 1 or not isinstance(r['cxx'][0], int):
             continue
         fmt = FMTS[c[1]]
@@ -639,7 +649,7 @@ def _engine_extra(pid):
                 if len(parts) == 3 and parts[1] == pid:
                     out.append(viol('standard engines: ' + parts[2], [], {'engine_driver_seed': s}))
         cov.setdefault('extra', {})['standard_engine_checks'] = {'seeds': len(seeds), 'checks_passed_all_properties': total_ok,
-            'engines': 'minstd_rand0 minstd_rand mt19937 mt19937_64 ranlux24_base ranlux48_base ranlux24 ranlux48 knuth_b + synthetic ranges 3, 1000, 65537', 'types': 'float double long double'}
+            'engines': 'minstd_rand0 minstd_rand mt19937 mt19937_64 ranlux24_base ranlux48_base ranlux24 ranlux48 knuth_b + independent_bits_engine (7, 14, 25, 28, 50, 53 bits) + lcg m=2^64-59 + synthetic ranges 3, 1000, 65537', 'types': 'float double long double'}
         return out
     return f
 # ---- the process environment as an input (C++-only differential): C03, C05, C20 --------------------------
